@@ -65,3 +65,17 @@ pub assume_specification<T, F: FnOnce() -> Option<T>> [Option::<T>::or_else::<F>
     requires o is None ==> f.requires(()),
     ensures o is Some ==> r == o,
             o is None ==> f.ensures((), r);
+
+// Result::unwrap_or
+pub assume_specification<T, E> [std::result::Result::<T, E>::unwrap_or] (r: std::result::Result<T, E>, default: T) -> (v: T)
+    ensures v == (match r { Ok(x) => x, Err(_) => default });
+
+// `for x in [a, b]`: by-value iteration of an array yields its elements in order
+#[verifier::prophetic]
+pub open spec fn arr_into_iter_post<T, const N: usize>(a: [T; N], iter: std::array::IntoIter<T, N>) -> bool {
+    &&& vstd::std_specs::iter::IteratorSpec::obeys_prophetic_iter_laws(&iter)
+    &&& vstd::std_specs::iter::IteratorSpec::decrease(&iter) is Some
+    &&& vstd::std_specs::iter::IteratorSpec::remaining(&iter) == a@
+}
+pub assume_specification<T, const N: usize>[<[T; N] as IntoIterator>::into_iter](a: [T; N]) -> (iter: <[T; N] as IntoIterator>::IntoIter)
+    ensures exists|t: std::array::IntoIter<T, N>| t == iter && #[trigger] arr_into_iter_post(a, t);
